@@ -335,24 +335,9 @@ def one_case(ctx, r, desc):
     wit = {"paths": paths, "gitignore": gitignore, "argv": argv, "mode": mode, "cwd": cwd_rel, "diff_files": diff_files, "symlinks": links, "renamed": ren, "probe": probe, "deleted_by_diff": gone,
            "expected_scope": want, "diff": diff.decode("utf-8", "replace")[:3000], "desc": desc}
 
-    # recorded finding (known_findings.json: global-excludes-anchored-from-subdir): patterns with a slash in the *global* excludes
-    # file are resolved against the start directory; from a sub-directory the files they ignore are walked after all
-    # (and, for the same reason, never see a directory above the start directory, e.g. `gen/` when started inside gen/)
-    anchored = gi_where.get("global", [])
-    lost_ign = set()
-    if cwd_rel and anchored:
-        local = [x for w, ps in gi_where.items() if w != "global" for x in ps]
-        lost_ign = {x for x in paths if x not in not_ignored and x not in hidden and not _ignored_by(local, x)}
-
     def bad(sig, summary):
-        if lost_ign and sig.split("/")[1] in ("list-error", "run-error", "list-scope-extra", "list-scope-both", "diag-scope", "diff-file-not-examined"):
-            m1 = re.search(r'file "([^"]+)"', lst.err_text() or res.err_text())
-            named = m1.group(1) if m1 else None
-            listed_extra = set(lst.listing() or {}) - set(want) if lst.cls == "ok" else set()
-            if (named in lost_ign) or (listed_extra and listed_extra <= lost_ign):
-                sig, summary = "C15/global-excludes-anchored-from-subdir", "started in %r with %s in the global excludes file: %s" % (cwd_rel, anchored, summary)
         return Case(VIOLATED, key=key, nontrivial=nontrivial, sig=sig, summary=summary, evals=2, sets=sets,
-                    witness=dict(wit, global_excludes=gi_where.get("global"), observed={"list": lst.brief(2500), "run": res.brief(2500)}))
+                    witness=dict(wit, ignore_files={w: ps for w, ps in gi_where.items()}, observed={"list": lst.brief(2500), "run": res.brief(2500)}))
 
     if lst.cls == "wall-timeout" or res.cls == "wall-timeout":
         return Case(INCONCLUSIVE, key=key, summary="wall timeout", evals=2)
@@ -445,8 +430,8 @@ def emptied_entries(diff):
 
 
 def _witness_global_excludes(ctx):
-    """Deterministic reproduction of the recorded finding: a pattern with a slash in the user's global excludes file is resolved
-    against the start directory, so from a sub-directory the ignored file is examined."""
+    """Regression witness of a repaired defect (bff308b): a pattern with a slash in the user's global excludes file used to be
+    resolved against the start directory, so from a sub-directory the ignored file was examined."""
     home_ignore = os.path.join(run.clean_env()["HOME"], ".config", "git", "ignore")
     os.makedirs(os.path.dirname(home_ignore), exist_ok=True)
     with open(home_ignore, "w") as f:
